@@ -394,8 +394,9 @@ def main(prop, tier):
         if p in seen:
             continue
         seen.add(p)
-        print("violation (%s, part %s): %s %s" % (origin, part, kind, json.dumps(detail, default=str)[:600]))
-        print("VIOLATION property=%s replay=%s" % (prop, p))
+        if len(seen) <= 5:
+            print("violation (%s, part %s): %s %s" % (origin, part, kind, json.dumps(detail, default=str)[:600]))
+            print("VIOLATION property=%s replay=%s" % (prop, p))
 
     parts_meta = {p.name: p for p in mod.PARTS}
     exhaustive_parts = [p.name for p in mod.PARTS if p.enumerate is not None]
@@ -447,6 +448,8 @@ def main(prop, tier):
         print("HARNESS ERROR:\n" + errors[0])
         return 2
     if seen:
+        if len(seen) > 5:
+            print("(%d more violation replays under %s)" % (len(seen) - 5, os.path.join(ROOT, "out", prop)))
         return 1
     # generator health: a check that explored nothing non-trivial must not pass silently
     if total.evaluations and total.rejected > 0.3 * (total.evaluations + total.rejected):
